@@ -1373,6 +1373,11 @@ class VarSub(Vars):
         indices_all = super().get_ind()
         return indices_all[self.indices].flatten()
 
+    def get(self):
+
+        var_sol = np.array(super().get()).reshape((self.size, ))
+        return var_sol[self.indices]
+
     def __getitem__(self, item):
 
         new_indices = self.indices[item]
